@@ -60,6 +60,10 @@ add("C12", "exploration", "runtime monitoring: parse results compared with the p
     "Names over the stated alphabet are parsed, a sample is stored under real functions/clusters on a filesystem store and found again by call, memento(), list_mementos() and list_memoized_functions(); seven evolution kinds of a pinned caller / evolving callee pair are run across fresh processes in default and named clusters, with and without cache.",
     "Inherently ambiguous qualified names (more than one valid decomposition) are reported as the single known finding K1; module and function names are dotted identifiers.", "DESIGN.md §4 C12")
 
+add("C01", "exploration", "runtime monitoring: value of every memento function after every edit of generated programs, compared with the twin (un-memoized) execution of the current edition; execution recorder shows which calls were served from the store",
+    "Generated two-module programs with 17 edit kinds, delivered across processes against one persistent store or inside a running process (cell-style re-execution, rebinding/mutation of variables, module reload); every function is called twice after every edit and compared with running Python on the same source with memento_function = identity.",
+    "The twin execution defines the expected value; explicit versions above an edit are bumped (their contract); UndeclaredDependencyError is accepted; in cell-style delivery, imports and aliases that copy a re-executed definition are re-executed too.", "DESIGN.md §4 C01")
+
 NOT_BUILT = "check not built yet in this round (design in DESIGN.md §4); will be claimed once its monitor exists"
 
 
